@@ -19,6 +19,9 @@ for d in sorted(glob.glob("/verif/seeded/*/")):
     if only and name not in only:
         continue
     meta = json.load(open(d + "meta.json"))
+    if meta.get("obsolete_since"):
+        print(f"{name}: skipped (no longer a violation since {meta['obsolete_since'][:60]}...)")
+        continue
     prop = meta.get("detected_by", meta["property"])
     try:
         rc, o = sh(f"git apply {d}patch.diff", cwd="/repo")
